@@ -208,6 +208,10 @@ def check(ctx):
     filter_clauses(ctx)
     dedup_clauses(ctx)
     unpivot_clauses(ctx)
+    from rules import independence
+    independence.r28_functions(ctx, [('dataflows.processors.filter_rows:process_resource', {}),
+                                     ('dataflows.processors.unpivot:unpivot_rows', {}),
+                                     ('dataflows.processors.deduplicate:deduper', {'keys': 'the set of primary keys seen so far'})])
     coupling.r11_function_steps(ctx, [ctx.repo.func('dataflows.processors.unpivot:unpivot.func')])
     steps = [ctx.repo.func('dataflows.processors.%s:%s.func' % (n, n)) for n in ('filter_rows', 'deduplicate', 'unpivot')]
     stream.r6_identity(ctx, steps)
